@@ -15,7 +15,7 @@ fn main() {
         &out,
         "From Sci Require Import Network.Cases. Open Scope N_scope.",
         "ncase",
-        "verdicts",
+        if mode == "c01" { "verdicts_c01" } else { "verdicts" },
         24,
     );
     let mut sum = Summary::default();
